@@ -145,6 +145,16 @@ theorem run_traceEq (s t : St) (a b : List Call) (h : TraceEq s.r.fl.cls a b) : 
     exact ⟨run_swap s t pre post c1 c2 hi, run_swap s t pre post c2 c1 ⟨hi.2, hi.1⟩⟩
   | trans _ _ ih1 ih2 => exact ih1.trans ih2
 
+/-- … hence the identical statement text, in every rendering context: the property's "any interleaving that keeps the
+relative order of calls of the same kind renders the identical statement" on the concrete builder -/
+theorem interleavings_render_same (s ta tb : St) (a b : List Call) (h : TraceEq s.r.fl.cls a b)
+    (ha : run s a = .ok ta) (hb : run s b = .ok tb) (c : Ctx) :
+    renderQuery c ta.r.toQ = renderQuery c tb.r.toQ := by
+  have := (run_traceEq s ta a b h).mp ha
+  rw [hb] at this
+  cases this
+  rfl
+
 /-- calls that write a common slot (in particular two calls of one kind) are never independent: `TraceEq` keeps their order -/
 theorem not_indep_of_common_write (cls : QClass) (c1 c2 : Call) (w : Slot) (h1 : w ∈ writes cls c1) (h2 : w ∈ writes cls c2) :
     ¬ Indep cls c1 c2 := fun hi => (hi.1 w h1).2 h2
